@@ -164,6 +164,12 @@ type DecCase struct {
 	Cfg     DCfg     `json:"cfg"`
 	Writer  []WEvent `json:"writer,omitempty"`
 	Ops     []DOp    `json:"ops"`
+	// Dict (dbuf): after Init the caller primes the window with a preset
+	// dictionary through the exported fields (there is no method for it):
+	// Data = append(Data, dict...), R = len(Data). These bytes can be
+	// referenced by matches, they are not part of the output and are not
+	// counted by Off.
+	Dict Bytes `json:"dict,omitempty"`
 	// Direct (dbuf): the DecoderBuffer is not initialised with Init; the
 	// caller sets the exported configuration fields of the zero value itself
 	// (WindowSize may then be 0: no byte can be referenced; BufferSize is
@@ -240,6 +246,7 @@ type decExec struct {
 	callLens          []int
 	stuckEnd          bool // the history ended at a writer that fails for good
 	relCalls          int
+	base              int // bytes of a preset dictionary at the start of all (not written through the methods)
 }
 
 func (x *decExec) report(prop, format string, a ...any) {
@@ -299,6 +306,13 @@ func newDecExec(c DecCase) (*decExec, error) {
 				return
 			}
 			err = x.buf.Init(cfg)
+			if err == nil && len(c.Dict) > 0 && len(c.Dict) <= x.cc.WindowSize && len(c.Dict) < x.cc.BufferSize {
+				x.buf.Data = append(x.buf.Data, c.Dict...)
+				x.buf.R = len(x.buf.Data)
+				x.all = append(x.all, c.Dict...)
+				x.cursor = len(c.Dict)
+				x.base = len(c.Dict)
+			}
 		case "dec":
 			x.wr = &scriptWriter{events: append([]WEvent(nil), c.Writer...), lens: &x.callLens}
 			x.dec, err = lz.NewDecoder(x.asWriter(x.wr), cfg)
@@ -435,8 +449,8 @@ func (x *decExec) relations(what string, st bufState, rejecting bool) {
 	if w := minInt(x.cc.WindowSize, len(x.all)); len(b.Data) < w {
 		x.reportAll(props, "%s: only %d bytes addressable, the window needs %d", what, len(b.Data), w)
 	}
-	if b.Off != int64(len(x.all)) {
-		x.report("C17", "%s: Off=%d but %d bytes have been written since Init/Reset", what, b.Off, len(x.all))
+	if b.Off != int64(len(x.all)-x.base) {
+		x.report("C17", "%s: Off=%d but %d bytes have been written since Init/Reset", what, b.Off, len(x.all)-x.base)
 	}
 	// classification: did this call discard bytes?
 	if what != "Reset" {
@@ -1009,6 +1023,8 @@ func (x *decExec) doReset() {
 			return
 		}
 		x.all = x.all[:0]
+	x.base = 0
+		x.base = 0
 		x.cursor = 0
 		x.relations("Reset", st, false)
 		if len(x.buf.Data) != 0 || x.buf.R != 0 {
@@ -1029,6 +1045,7 @@ func (x *decExec) doReset() {
 	}
 	x.wr = nw
 	x.all = x.all[:0]
+	x.base = 0
 	x.retriesPending = nil
 }
 
@@ -1061,6 +1078,8 @@ func (x *decExec) doReinit(op DOp) {
 		x.wr = nw
 		x.cc = cfg.completed()
 		x.all = x.all[:0]
+	x.base = 0
+		x.base = 0
 		x.retriesPending = nil
 		return
 	}
@@ -1078,6 +1097,7 @@ func (x *decExec) doReinit(op DOp) {
 	}
 	x.cc = cfg.completed()
 	x.all = x.all[:0]
+	x.base = 0
 	x.cursor = 0
 	x.relations("Reset", st, false)
 	if len(x.buf.Data) != 0 || x.buf.R != 0 {
